@@ -93,6 +93,7 @@ class ModelInterp(MiniEval):
         self.a = a
         self.modstack: list[str] = []
         self.depth = 0
+        self._evaluating: set = set()
 
     # ----------------------------------------------------------------- names
     def lookup(self, name: str, env: dict) -> Any:
@@ -115,6 +116,23 @@ class ModelInterp(MiniEval):
                     return const_eval(mod.assigns[n])
                 except ValueError:
                     pass
+                # a module-level constant built from names the interpreter knows: _TYPES = (weakref.ReferenceType, *weakref.ProxyTypes),
+                # _TABLE = MappingProxyType({...}), _NAMES = frozenset(_A) | {...}
+                key = ('<modconst>', m, n)
+                if key in self.globals:
+                    return self.globals[key]
+                if key not in self._evaluating:
+                    self._evaluating.add(key)
+                    self.modstack.append(m)
+                    try:
+                        v = self.expr(mod.assigns[n], {})
+                        self.globals[key] = v
+                        return v
+                    except Unsupported:
+                        pass
+                    finally:
+                        self.modstack.pop()
+                        self._evaluating.discard(key)
             if q.startswith('builtins.') or '.' in q:
                 ext = _EXTERNAL.get(q)
                 if ext is not None:
